@@ -843,6 +843,10 @@ func execStringsPadding(fn parser.Function, args []value.Primary, direction Dire
 	}
 
 	padLen := length - strLen
+	if math.MaxInt32 < padLen {
+		// A string of that length cannot be built: the repeat count overflows or the allocation is refused.
+		return nil, NewFunctionInvalidArgumentError(fn, fn.Name, "length is too large")
+	}
 	repeat := int(math.Ceil(float64(padLen) / float64(padstrLen)))
 	padding := strings.Repeat(padstr, repeat)
 	switch padType {
